@@ -95,7 +95,22 @@ func (p Plugin) CalculateRealloc(ctx context.Context, nodename string, resource 
 	var numaNodeID string
 	var numaMemory cpumemtypes.NUMAMemory
 
-	if req.CPUBind {
+	if req.CPUBind && req.KeepCPUBind && len(originResource.CPUMap) > 0 && newReq.CPURequest == originResource.CPURequest {
+		// nothing about the CPU changes, so the workload stays on the cores (and NUMA node) it already has:
+		// re-planning could move it (NUMA nodes are planned in map order and the first plan wins, and a fragment
+		// core freed by the workload itself loses its affinity once it counts as a full core again)
+		if newReq.MemRequest > originResource.MemoryRequest {
+			availableResource := nodeResourceInfo.GetAvailableResource()
+			if newReq.MemRequest > availableResource.Memory || (len(originResource.NUMANode) > 0 && newReq.MemRequest > availableResource.NUMAMemory[originResource.NUMANode]) {
+				return nil, coretypes.ErrInsufficientResource
+			}
+		}
+		cpuMap = originResource.CPUMap
+		numaNodeID = originResource.NUMANode
+		if len(numaNodeID) > 0 {
+			numaMemory = cpumemtypes.NUMAMemory{numaNodeID: newReq.MemRequest}
+		}
+	} else if req.CPUBind {
 		cpuPlans := schedule.GetCPUPlans(nodeResourceInfo, originResource.CPUMap, p.config.Scheduler.ShareBase, p.config.Scheduler.MaxShare, newReq)
 		if len(cpuPlans) == 0 {
 			return nil, coretypes.ErrInsufficientResource
